@@ -676,6 +676,27 @@ class A {
 a = A()
 OBS a.add("s")
 """),
+    ("field-holding-a-function", "accept", """
+class A {
+	f: fn(int) -> int
+	k: int
+	constructor(self) {
+		self.k = 10
+		self.f = fn(a: int) -> int {
+			return a + 1
+		}
+	}
+	fn twice(self, x: int) -> int {
+		return self.f(self.f(x)) + self.k
+	}
+}
+a = A()
+OBS a.f
+OBS a.f(2)
+OBS a.twice(1)
+g = a.f
+OBS g(5)
+"""),
     ("self-typed-parameter", "accept", """
 class D {
 	name: str
